@@ -59,6 +59,16 @@ def parseChecker (s : String) : JE (Option CheckerSpec) :=
   | "whole" => pure (some wholeStreamChecker)
   | c => throw s!"bad checker {c}"
 
+/-- `ToolsConfig.UnknownToolsHandler`: "" / "none" = nil; "echo" names the tool it was asked for;
+    "const" always says the same; "fail" returns an error -/
+def parseUnknown (s : String) : JE (Option (String → String → Except Nat String)) :=
+  match s with
+  | "" | "none" => pure none
+  | "echo" => pure (some fun n a => .ok ("no tool " ++ n ++ "(" ++ a ++ ")"))
+  | "const" => pure (some fun _ _ => .ok "no such tool")
+  | "fail" => pure (some fun _ _ => .error 9)
+  | u => throw s!"bad unknown-tools handler {u}"
+
 /-- "agent" (Agent.Generate/Stream, default) | "chain" | "graph" (the graph returned by
     ExportGraph inside a parent chain / graph) -/
 def parseHost (s : String) : JE Host :=
@@ -124,8 +134,9 @@ def handleShared (c : Json) : JE Json := do
   let modifier ← parseModifier (J.strD c "modifier" "none")
   let checker ← parseChecker (J.strD c "checker" "default")
   let host ← parseHost (J.strD c "host" "agent")
+  let unknown ← parseUnknown (J.strD c "unknown" "")
   let cfg : Config := { tools := lookupTool tools, returnDirectly := rd, maxStep := maxStep,
-                        modifier := modifier, checker := checker }
+                        modifier := modifier, checker := checker, unknown := unknown }
   let spare := spareCells (J.natD c "spare" 0)
   let specs ← (← J.arr c "runs").mapM fun r => do
     let script ← (← J.arr r "script").mapM parseReply
@@ -139,7 +150,7 @@ def handleShared (c : Json) : JE Json := do
     ("limit", match stepLimit (F.forHost host) cfg with | some n => (n : Json) | none => Json.null)]
 
 /-- case {"kind":"topology","rd":bool} → the model's topology table;
-    case {"kind":"run", orig, script, tools, rd, maxStep, modifier, checker, host} → both modes
+    case {"kind":"run", orig, script, tools, rd, maxStep, modifier, checker, host, unknown} → both modes
     (chunks: {content, calls, extras}; the calls of a chunk are deltas {id, name, args, index?},
     assembled per index by the model; calls in the answer are printed without their index) -/
 def handle (c : Json) : JE Json := do
@@ -157,8 +168,9 @@ def handle (c : Json) : JE Json := do
     let modifier ← parseModifier (J.strD c "modifier" "none")
     let checker ← parseChecker (J.strD c "checker" "default")
     let host ← parseHost (J.strD c "host" "agent")
+    let unknown ← parseUnknown (J.strD c "unknown" "")
     let cfg : Config := { tools := lookupTool tools, returnDirectly := rd, maxStep := maxStep,
-                          modifier := modifier, checker := checker }
+                          modifier := modifier, checker := checker, unknown := unknown }
     pure <| Json.mkObj [
       ("generate", runJson (runAt F host cfg .generate orig script)),
       ("stream", runJson (runAt F host cfg .stream orig script)),
